@@ -2,7 +2,7 @@
   Model/Nested.lean — one hierarchical state change, written after `transitions/extensions/nesting.py`:
 
     NestedTransition._resolve_transition   `resolveTransition`  (root = active prefix of the destination looked up
-                                            in the GLOBAL tree, re-rooting when the destination is fully active,
+                                            in the tree of the declaring scope, re-rooting when the destination is fully active,
                                             exit scope with sibling narrowing, tree surgery)
     NestedTransition._enter_nested         `enterRoot` / `enterDest` / `initLoop` (remaining destination path, then the
                                             breadth-first descent through `initial`, a queue loop as in the code)
@@ -79,6 +79,7 @@ structure NSt where
   counts : List (Nat × Nat) := []
   nextTag : Nat := 0
   result : Option Bool := none         -- `event_data.result` of the event being processed
+  exited : List SPath := []            -- `event_data.exited_states` of the event being processed (global names)
   log : List Item := []
   glog : List GEv := []
   deriving Repr, Inhabited
@@ -179,7 +180,7 @@ def enterRoot : Scope → SPath → SPath → PR (Forest × List Found)
 /-! ### `_resolve_transition` -/
 
 /-- the `while tmp_tree is not None:` loop: the prefix of the destination that is active — looked up from the
-top of the GLOBAL tree — and the rest -/
+top of the given tree (the sub-tree of the declaring scope) — and the rest -/
 def activePrefix : Forest → SPath → SPath × SPath
   | _, [] => ([], [])
   | f, k :: p =>
@@ -191,6 +192,8 @@ structure Resolved where
   tree : Forest
   exits : List Found
   enters : List Found
+  /-- `scope + root + state_name for state_name in resolve_order(exit_scope)`: what goes into `exited_states` -/
+  exitNames : List SPath := []
   deriving Repr, Inhabited
 
 /-- `[get_state(root + state_name) … for state_name in resolve_order(exit_scope)]` -/
@@ -206,7 +209,13 @@ def resolveTransition (root sc : Scope) (conf : Forest) (dest : SPath) : PR Reso
   match getState root sc dest with
   | none => .err .valueError
   | some _ =>
-    let ap := activePrefix conf dest
+    -- tmp_tree = reduce(dict.get, scope, state_tree).get(dst_name_path[0], None): the destination of a transition
+    -- defined inside a state is relative to that state
+    match conf.reduceGet sc.pre with
+    | .error e => .err e
+    | .ok none => .err .attributeError              -- None has no `get`
+    | .ok (some scopeTree) =>
+    let ap := activePrefix scopeTree dest
     -- if not dst_name_path: dst_name_path = [root.pop()]
     let rt := if ap.2.isEmpty then ap.1.dropLast else ap.1
     let dst := if ap.2.isEmpty then ap.1.drop (ap.1.length - 1) else ap.2
@@ -230,7 +239,7 @@ def resolveTransition (root sc : Scope) (conf : Forest) (dest : SPath) : PR Reso
             match r.1 with
             | .cons k v _ => base.set k v
             | .nil => base
-          .ok { tree, exits, enters := r.2 }
+          .ok { tree, exits, enters := r.2, exitNames := order.map fun p => sc.pre ++ rt ++ p }
 
 /-! ### `_change_state` -/
 
@@ -255,7 +264,8 @@ def nchangeState (sub : NSub) (sc : Script) (cfg : NCfg) (scope : Scope) (x : Ct
   | .err e => .err e s
   | .oof => .oof
   | .ok r =>
-    (exitAll sub sc cfg x r.exits s).bind fun _ s1 =>
+    -- `_resolve_transition` records what it exits before anything runs
+    (exitAll sub sc cfg x r.exits { s with exited := s.exited ++ r.exitNames }).bind fun _ s1 =>
       enterAll sub sc cfg x r.enters { s1 with conf := r.tree }
 
 /-- `Transition.execute` with the nested `_change_state`. -/
